@@ -64,20 +64,39 @@ impl UnifyProp {
     /// `renamed`: pass every term through recreate_variables with one shared VarMap first.
     /// `swap`: unify(right, left) instead of unify(left, right) at every step.
     fn run_history(&self, h: &[(Term, Term)], renamed: bool, swap: bool, rep: &mut Report) -> Result<Outcome, CaseResult> {
-        self.run_history_built(h, renamed, swap, false, rep)
+        self.run_history_built(h, renamed, swap, 0, rep)
     }
 
     /// `constructor`: every list is rebuilt with the documented constructor make_linked_list (what `slist!` calls) from its
     /// element terms and tail, instead of the node-by-node form the parser produces - both must unify alike.
-    fn run_history_built(&self, h: &[(Term, Term)], renamed: bool, swap: bool, constructor: bool, rep: &mut Report) -> Result<Outcome, CaseResult> {
+    fn run_history_built(&self, h: &[(Term, Term)], renamed: bool, swap: bool, constructor: u8, rep: &mut Report) -> Result<Outcome, CaseResult> {
         let id = self.id;
-        let note = format!("{}{}{}", if renamed { "[after recreate_variables] " } else { "" }, if swap { "[sides swapped] " } else { "" }, if constructor { "[lists built with make_linked_list] " } else { "" });
+        let note = format!("{}{}{}", if renamed { "[after recreate_variables] " } else { "" }, if swap { "[sides swapped] " } else { "" }, ["", "[lists built with make_linked_list] ", "[terms parsed from their source text] "][constructor as usize]);
         // engine terms
         let names = hist_names(h);
         let ids: HashMap<String, usize> = names.iter().enumerate().map(|(i, n)| (n.clone(), i + 1)).collect();
         let mut eterms: Vec<(U, U)> = h.iter().map(|(a, b)| (to_engine(a, &Ids::Map(&ids)), to_engine(b, &Ids::Map(&ids)))).collect();
         let mut vars: Vec<(String, usize)> = names.iter().enumerate().map(|(i, n)| (n.clone(), i + 1)).collect();
-        if constructor {
+        let mut renamed = renamed;
+        if constructor == 2 {
+            // every term is written as source text and read back by parse_term (variables then get their ids from
+            // recreate_variables, as in a parsed rule); a text the parser rejects is not this property's business
+            let r = guarded(u64::MAX, || -> Option<Vec<(U, U)>> {
+                let mut v = vec![];
+                for (a, b) in h {
+                    let pa = suiron::parse_term(&crate::render::term(a, &crate::render::CANON)).ok()?;
+                    let pb = suiron::parse_term(&crate::render::term(b, &crate::render::CANON)).ok()?;
+                    v.push((pa, pb));
+                }
+                Some(v)
+            });
+            match r {
+                Ok(Some(v)) => { eterms = v; renamed = true; }
+                Ok(None) => return Err(CaseResult::Discard("no source text".into())),
+                Err(f) => return Err(fail(id, "engine-failure", format!("parse_term: {:?}", f), h, 0, &note)),
+            }
+        }
+        if constructor == 1 {
             fn rebuild(u: &U) -> U {
                 match u {
                     U::SComplex(v) => U::SComplex(v.iter().map(rebuild).collect()),
@@ -278,9 +297,41 @@ impl UnifyProp {
         let base = match self.run_history(h, false, false, rep) { Ok(o) => o, Err(r) => return r };
         if h.iter().any(|(a, b)| a.has_list() || b.has_list()) && self.aspect != UAspect::Acyclic {
             // the same history over lists built by the documented constructor
-            match self.run_history_built(&h[..base.steps.len().min(h.len())], false, false, true, rep) {
+            match self.run_history_built(&h[..base.steps.len().min(h.len())], false, false, 1, rep) {
                 Ok(o) => { if o.steps != base.steps { return fail(self.id, "constructor-built-lists-differ", format!("parser-shaped lists: {:?}; make_linked_list: {:?}", base.steps, o.steps), h, 0, ""); } rep.class("also with make_linked_list-built lists"); }
                 Err(r) => return r,
+            }
+        }
+        if self.aspect != UAspect::Acyclic && h.iter().all(|(a, b)| crate::props::builtins::text_safe(a) && crate::props::builtins::text_safe(b)) {
+            // the same history over terms read from their source text (f(a, $_), [x | $T], ...): what is written must unify
+            // like what is built
+            match self.run_history_built(&h[..base.steps.len().min(h.len())], false, false, 2, rep) {
+                Ok(o) => { if o.steps != base.steps { return fail(self.id, "text-built-terms-differ", format!("API-built terms: {:?}; the same terms parsed from text: {:?}", base.steps, o.steps), h, 0, ""); } rep.class("also with terms parsed from source text"); }
+                Err(CaseResult::Discard(_)) => {}
+                Err(r) => return r,
+            }
+        }
+        if matches!(self.aspect, UAspect::Mgu | UAspect::Anon) && !base.stopped_occurs && !base.steps.is_empty() && fnv(&fmt_hist(h)) % 5 == 0 {
+            // the same history as `=` goals of a rule body, each step between two variables that are already bound to the
+            // two terms ($A = t, $B = u, $A = $B): the built-in unify predicate must agree with unify()
+            let upto = base.steps.iter().position(|x| !*x).map_or(base.steps.len(), |i| i + 1).min(h.len());
+            let mut goals = vec![];
+            for (i, (a, b)) in h[..upto].iter().enumerate() {
+                let (va, vb) = (Term::Var(format!("$Ga{}", i)), Term::Var(format!("$Gb{}", i)));
+                goals.push(Goal::Unify(va.clone(), a.clone()));
+                goals.push(Goal::Unify(vb.clone(), b.clone()));
+                goals.push(Goal::Unify(va, vb));
+            }
+            let names = hist_names(h);
+            let p = Program { clauses: vec![Clause { name: "t".into(), args: names.iter().map(|n| Term::Var(n.clone())).collect(), body: Some(Goal::And(goals)) }],
+                              qname: "t".into(), qargs: (0..names.len()).map(|i| Term::Var(format!("$Q{}", i))).collect() };
+            let want = if base.steps[..upto].iter().all(|x| *x) { 1 } else { 0 };
+            match run_program(&p, 3, 0, 2_000_000) {
+                Ok(run) => {
+                    if run.answers.len() != want { return fail(self.id, "unify-goal-differs", format!("unify(): {:?}; as `=` goals between bound variables the rule body has {} answer(s), expected {}\n{}", &base.steps[..upto], run.answers.len(), want, p), h, 0, ""); }
+                    rep.class("also as = goals between bound variables");
+                }
+                Err(f) => return fail(self.id, "engine-failure", format!("as = goals: {:?}\n{}", f, p), h, 0, ""),
             }
         }
         if base.stopped_occurs && base.steps.is_empty() { return CaseResult::Discard("first step needs occurs check".into()); }
